@@ -25,7 +25,7 @@
 (* contract of LCS.tla for every pair and bound of the bounded model, and   *)
 (* that its answer does not depend on what the scratch buffer held before.  *)
 (***************************************************************************)
-EXTENDS Integers, Sequences, LCS
+EXTENDS Integers, Sequences, SequencesExt, LCS
 
 WS == 14
 P1 == 2 ^ WS                  \* one match
@@ -65,21 +65,25 @@ Cell(c, y, x, odd, prev, cur) ==
                  IN Max3(sdiag, sup, sleft)
   IN IF ~odd /\ (x = 0 \/ x = c.even - 1) THEN SetOut(v) ELSE v
 
-RECURSIVE Fill(_, _, _, _, _, _, _)
-Fill(c, y, x, xf, odd, prev, cur) ==            \* for x := x; x < xf; x++
-  IF x >= xf THEN cur
-  ELSE Fill(c, y, x + 1, xf, odd, prev, [cur EXCEPT ![x] = Cell(c, y, x, odd, prev, cur)])
+(* for x := xs; x < xf; x++ { current[x] = ... }   (FoldLeft of SequencesExt: a native loop) *)
+Fill(c, y, xs, xf, odd, prev, cur) ==
+  FoldLeft(LAMBDA cu, x : [cu EXCEPT ![x] = Cell(c, y, x, odd, prev, cu)],
+           cur, [k \in 1..(xf - xs) |-> xs + k - 1])
 
-RECURSIVE Sweep(_, _, _, _, _)
-Sweep(c, y, N, prev, cur) ==
-  IF y > N THEN prev
-  ELSE LET xs1  == MaxOf({y - c.lB + c.extra, c.extra - y, 0})
-           xf1  == MinOf({y + c.extra, c.lA + c.extra - y, c.even - 1}) + 1
-           cur1 == Fill(c, y, xs1, xf1, FALSE, prev, cur)
-           xs2  == MaxOf({y - c.lB + c.extra + c.even, c.extra - y + c.even - 1, c.even})
-           xf2  == MinOf({y + c.extra + c.even, c.lA + c.extra - y + c.even - 1, c.width - 1}) + 1
-           cur2 == Fill(c, y, xs2, xf2, TRUE, prev, cur1)
-       IN Sweep(c, y + 1, N, cur2, prev)
+(* for y := 1; y <= N; y++ { even half; odd half; previous, current = current, previous } *)
+(* the state of the loop is <<previous, current>>                                         *)
+Sweep(c, N, prev0, cur0) ==
+  FoldLeft(LAMBDA pc, y :
+             LET prev == pc[1]
+                 cur  == pc[2]
+                 xs1  == MaxOf({y - c.lB + c.extra, c.extra - y, 0})
+                 xf1  == MinOf({y + c.extra, c.lA + c.extra - y, c.even - 1}) + 1
+                 cur1 == Fill(c, y, xs1, xf1, FALSE, prev, cur)
+                 xs2  == MaxOf({y - c.lB + c.extra + c.even, c.extra - y + c.even - 1, c.even})
+                 xf2  == MinOf({y + c.extra + c.even, c.lA + c.extra - y + c.even - 1, c.width - 1}) + 1
+                 cur2 == Fill(c, y, xs2, xf2, TRUE, prev, cur1)
+             IN <<cur2, prev>>,
+           <<prev0, cur0>>, [k \in 1..N |-> k])[1]
 
 (* a, b: the arguments in call order; e: maxError; egf: end-gap-free mode;              *)
 (* stale: what every word of the scratch buffer holds when the call starts              *)
@@ -103,7 +107,7 @@ Banded(a, b, e, egf, stale) ==
                           ELSE IF x = extra + even - 1 THEN Enc(0, 1, FALSE)
                           ELSE stale]
               cur0  == [x \in 0..(width - 1) |-> stale]
-              last  == Sweep(c, 1, lB + (delta \div 2), prev0, cur0)
+              last  == Sweep(c, lB + (delta \div 2), prev0, cur0)
               r     == Dec(last[(delta % 2) * even + extra + (delta \div 2)])
           IN IF r[3] THEN NotFound ELSE <<r[1], r[2]>>
 =============================================================================
